@@ -148,14 +148,14 @@ type c20Outcome struct {
 }
 
 func TestVerifC20(t *testing.T) {
-	rep := vfNewReport("C20", "proxy: exhaustive product of request kind (7) x local outcome (ok, ErrNotLeader, wrapped ErrNotLeader, other error) x noForward x LeaderAddr outcome (error, empty, address) x cluster outcome (ok, error text \"unauthorized\", other error) x credentials (nil, present) x retries (0, 3) through the public API of the real proxy.Proxy with recording mocks; non-trivial when the local store reports not-leader; distinct by the combination")
+	rep := vfNewReport("C20", "proxy: exhaustive product of request kind (7) x local outcome (ok, ErrNotLeader, wrapped ErrNotLeader, other error) x noForward x LeaderAddr outcome (error, empty, address) x cluster outcome (ok, error text \"unauthorized\", error text \"not leader\", other error) x credentials (nil, present) x retries (0, 3) through the public API of the real proxy.Proxy with recording mocks; non-trivial when the local store reports not-leader; distinct by the combination")
 	rep.Exhaustive = true
 	defer rep.Write()
 
 	kinds := []string{"execute", "query", "request", "backup", "load", "remove", "stepdown"}
 	locals := []string{"ok", "nl", "nlw", "err"}
 	addrs := []string{"err", "empty", "leader:4002"}
-	remotes := []string{"ok", "unauth", "err"}
+	remotes := []string{"ok", "unauth", "nl", "err"}
 	var ops, impl []string
 
 	for _, kind := range kinds {
@@ -187,6 +187,8 @@ func TestVerifC20(t *testing.T) {
 								switch ro {
 								case "unauth":
 									e.remoteErr = errors.New("unauthorized")
+								case "nl": // the node forwarded to is no longer leader: its answer arrives as text
+									e.remoteErr = errors.New("not leader")
 								case "err":
 									e.remoteErr = errors.New("remote-boom")
 								}
@@ -271,6 +273,8 @@ func TestVerifC20(t *testing.T) {
 									res = "err-leader-not-found"
 								case errors.Is(out.err, ErrUnauthorized):
 									res = "err-unauthorized"
+								case out.err.Error() == "not leader":
+									res = "err-remote-not-leader"
 								case out.err.Error() == "addr-boom":
 									res = "err-addr"
 								case out.err.Error() == "remote-boom":
@@ -306,6 +310,9 @@ func TestVerifC20(t *testing.T) {
 								rep.Count("kind:" + kind)
 								rep.Count("local:" + lo)
 								replay := map[string]interface{}{"case": key, "calls": cs, "result": res}
+								if !nf && errors.Is(out.err, ErrNotLeader) {
+									rep.Fail("proxy:"+kind+":ErrNotLeader-returned-although-no-redirect-was-requested", key+": the proxy returned the sentinel ErrNotLeader, which the HTTP handlers answer with DoRedirect (a no-op without the redirect flag): the caller would get an empty 200", replay)
+								}
 								if notLeader {
 									if out.fromLocal || (out.err == nil && remoteCalls == 0) {
 										rep.Fail("proxy:"+kind+":local-result-on-follower", key+": the local store said not-leader, yet a local result was returned", replay)
